@@ -330,6 +330,19 @@ fn exec(c: &PipeCase, st: &mut Stats, adversarial: bool) -> Option<Violation> {
     call("total_break_time", mm, &mut || {
         let _ = map.total_break_time();
     });
+    if mm == 0 && !map.is_convert {
+        // every key count is its own set of code paths in the mania converter, and conversions are
+        // cheap: all of them on every osu! map
+        call("convert_all_key_mods", 3, &mut || {
+            for bits in std::iter::once(0u32).chain(crate::spec::KEY_BITS.iter().copied()) {
+                let _ = map.convert_ref(MODES[3], &GameMods::from(bits));
+            }
+        });
+        call("convert_taiko_catch", 1, &mut || {
+            let _ = map.convert_ref(MODES[1], &GameMods::from(0u32));
+            let _ = map.convert_ref(MODES[2], &GameMods::from(0u32));
+        });
+    }
     for (di, d) in c.diffs.iter().enumerate() {
         let mods: GameMods = d.mods.as_ref().map_or_else(|| 0u32.into(), ModsSpec::build);
         call("attributes", mm, &mut || {
